@@ -1676,12 +1676,18 @@ func inInit(stack []ast.Node) bool {
 func (an *analysis) readOnlyVar1(o types.Object) bool {
 	immutable := immutableStd(o.Type())
 	bigNum := isBigNum(o.Type())
-	if o.Exported() || !(plainBytes(o.Type()) || immutable || bigNum) || o.Pkg() == nil {
+	table := !plainBytes(o.Type()) && plainData(o.Type(), 0)
+	if o.Exported() || !(plainBytes(o.Type()) || immutable || bigNum || table) || o.Pkg() == nil {
 		return false
 	}
 	lp := an.l.pkgs[o.Pkg().Path()]
 	if lp == nil || lp.info == nil {
 		return false
+	}
+	if table {
+		// a table of plain records (`var layout = []FieldDescription{...}`): a named constant as long
+		// as no file of the package writes it (same rule as fresh.go's readOnlyTable)
+		return readOnlyTable(&pkgInfo{fset: an.l.fset, files: lp.files, info: lp.info, pkg: lp.pkg}, o)
 	}
 	ok := true
 	for _, f := range lp.files {
